@@ -77,11 +77,14 @@ def _parse_blocks(lines, nseq_hint=None, max_cols=60):
         bn = []
         bs = []
         for ln in blk:
-            parts = ln.rstrip().rsplit(None, 1)
-            if len(parts) != 2:
+            parts = ln.split()
+            # name = first word; the rest is sequence, possibly written in groups and followed by a residue count
+            while len(parts) > 2 and parts[-1].isdigit():
+                parts.pop()
+            if len(parts) < 2:
                 raise FormatError("block %d: cannot split line %r" % (bi, ln[:60]))
-            bn.append(parts[0].rstrip())
-            bs.append(parts[1])
+            bn.append(parts[0])
+            bs.append("".join(parts[1:]))
         if names is None:
             names = bn
             rows = [[] for _ in bn]
